@@ -92,7 +92,7 @@ var Projections = map[string]*Projection{
 		Cb: map[string]fieldSet{"*": fs("q", "def", "ret", "cp", "sp", "i", "db", "user")}},
 	"C13": {SkipPreamble: true, Recv: map[string]fieldSet{"*": kinds, "G": fs("fmt", "n", "fmts")},
 		Cb: map[string]fieldSet{"*": fs("q", "def", "si", "ret", "dig")}},
-	"C17": {SkipPreamble: true, Recv: map[string]fieldSet{"*": kinds, "E": fs("wf", "dup", "sev", "code", "msg", "hint", "detail", "cons", "file", "line", "fn")},
+	"C17": {SkipPreamble: true, Recv: map[string]fieldSet{"*": kinds, "E": fs("wf", "dup", "sev", "code", "msg", "hint", "detail", "cons", "file", "line", "fn", "src", "hasmsg")},
 		Cb: map[string]fieldSet{"*": fs("q", "def")}},
 	"C19": {Recv: map[string]fieldSet{"*": kinds},
 		Cb: map[string]fieldSet{"*": fs("q", "def", "si", "i", "mw", "cp", "sp", "addr", "tm", "live", "prevdone")}},
